@@ -348,3 +348,19 @@ class Lemmas:
 
     def __init__(self, items):
         self.items = list(items)
+
+
+def borrow(units, prop, keep=None):
+    """Units of another property's sidecar file, run again under `prop`: a property that depends on a function carries that
+    function's contract in its own check (a caller is checked against the callee's contract, so the callee's obligations belong to
+    every property that relies on them).  Same target, same contract; only the label and the property they report under change."""
+    import copy
+    out = []
+    for u in units:
+        if keep is not None and not keep(u):
+            continue
+        v = copy.copy(u)
+        v.prop = prop
+        v.name = f'{prop}<-{u.name}'
+        out.append(v)
+    return out
